@@ -127,15 +127,6 @@ def bspline_row(knots, degree, x):
     return _triangle(t, degree, x, mu)
 
 
-def bspline_row_at_upper_end_closing_last_interval(knots, degree):
-    """values at x = t_max under the OTHER reading of "right boundary closed": the knot interval that ends at the first
-    copy of the upper boundary knot, [t[n-degree-2], t[n-degree-1]], is closed even when an interior knot coincides with
-    the boundary and makes it empty (this is what R's splines::splineDesign does).  Differs from bspline_row only
-    when interior knots coincide with the upper boundary."""
-    t = knots
-    return _triangle(t, degree, t[-1], len(t) - degree - 2)
-
-
 def bspline_row_naive(knots, degree, x):
     """the same by the plain recursive definition over all indices (used by the self-test only)"""
     t = knots
